@@ -13,7 +13,7 @@ BUILDS = {'quick': [('k160', 'stone5', 'full'), ('k160', 'stone6', 'full')], 'th
 RULE = ('bases: random public inputs (0..12 main-page cells, 0..3 continuous page headers, 2..11 segments, with/without 340 dynamic params (values up to 2^64-1; mutations +1, +2^31, +2^32, +2^33, +2^47, +2^63), '
         'edge field values); per base one case per single-field change (step count, range-check bounds, layout code, a dynamic parameter, each '
         'segment bound, padding cell, a main-page address, a main-page value, each page-header field), main-page cell insertion / deletion / '
-        'adjacent transposition, friendly-layer count change; aux = the base itself (seed must differ, except: header prod, and the friendly '
+        'adjacent transposition, a cell equal to the padding cell appended (once / twice) / prepended, first / last cell duplicated, a zero cell appended, friendly-layer count change; aux = the base itself (seed must differ, except: header prod, and the friendly '
         'count under stone5). non-trivial = mutated; distinct = distinct lines.')
 ASSUMPTIONS = ['Pedersen/Poseidon (starknet-crypto) are modelled by executable Lean code compared on every case',
                'recorded first challenges of the shipped proofs are compared under C03/C19 (parser build)']
@@ -78,6 +78,15 @@ def cases(rng, tier, feats, drv_ok):
             if len(b['page']) >= 2 and b['page'][0] != b['page'][1]:
                 mut('page_transpose', lambda m: m['page'].__setitem__(slice(0, 2), [m['page'][1], m['page'][0]]))
         mut('page_insert', lambda m: m['page'].insert(rng.below(len(m['page']) + 1), [rng.below(1 << 30), rng.felt()]))
+        # cells that COINCIDE with other fields of the input: a cell equal to the padding cell appended / prepended / inserted, a cell
+        # duplicated, the last cell repeated (a digest that skipped "padding-like" or repeated cells would not notice)
+        mut('page_append_padding_cell', lambda m: m['page'].append(list(m['pad'])))
+        mut('page_append_two_padding_cells', lambda m: m['page'].extend([list(m['pad']), list(m['pad'])]))
+        mut('page_prepend_padding_cell', lambda m: m['page'].insert(0, list(m['pad'])))
+        if b['page']:
+            mut('page_duplicate_last', lambda m: m['page'].append(list(m['page'][-1])))
+            mut('page_duplicate_first', lambda m: m['page'].insert(0, list(m['page'][0])))
+            mut('page_zero_cell_appended', lambda m: m['page'].append([0, 0]))
         for i in range(len(b['hdrs'])):
             mut('header_start', lambda m, i=i: m['hdrs'][i].__setitem__(0, m['hdrs'][i][0] + 1))
             mut('header_size', lambda m, i=i: m['hdrs'][i].__setitem__(1, m['hdrs'][i][1] + 1))
